@@ -329,9 +329,18 @@ func ruleC11Name(p *Prog, a *Anchors, r *Report) {
 		r.Unk("anchor", "-", "anchor unresolved: resolveFilename/FromFile")
 		return
 	}
+	// the referring template is the one the tag is written in: the parser's template at compile time, or a node
+	// field that only ever captures it. ExecutionContext.template is NOT it: it is the root of the inheritance
+	// chain being executed, so a tag inherited from a child in another directory would resolve next to the base.
 	isReferringTemplate := func(v ssa.Value) bool {
 		_, n, fld := fieldLoadBase(v)
-		return n != nil && fld == "template" && (n.Obj().Name() == "Parser" || n.Obj().Name() == "ExecutionContext")
+		if n == nil {
+			return false
+		}
+		if fld == "template" && n.Obj().Name() == "Parser" {
+			return true
+		}
+		return capturedParserTemplate(p, n.Obj().Name(), fld)
 	}
 	p.EachInstr(func(f *ssa.Function, in ssa.Instruction) {
 		ci, ok := in.(ssa.CallInstruction)
@@ -407,6 +416,23 @@ func ruleC11Name(p *Prog, a *Anchors, r *Report) {
 			}
 		}
 	})
+}
+
+// capturedParserTemplate: T.field is only ever assigned the parser's template (doc.template), i.e. it remembers the
+// template the node was parsed in.
+func capturedParserTemplate(p *Prog, typ, field string) bool {
+	n, ok := 0, true
+	p.EachInstr(func(f *ssa.Function, in ssa.Instruction) {
+		st, isSt := in.(*ssa.Store)
+		if !isSt || !isFieldAddrOf(st.Addr, typ, field) {
+			return
+		}
+		n++
+		if !loadsField(st.Val, "Parser", "template") {
+			ok = false
+		}
+	})
+	return ok && n > 0
 }
 
 // fieldAlwaysStoredFrom: every store to T.field stores the result of a call to fn.
@@ -523,10 +549,25 @@ func ruleC11Only(p *Prog, a *Anchors, r *Report) {
 					s, isC := constString(b.Y)
 					return isC && s == "fromfile" && loadsFieldAny(b.X, "Error", "Sender")
 				})
-				if ifEx && sender {
-					r.OK(key, p.InstrPos(ret), "a failed load is ignored only when if_exists is set and the error is a missing file (Sender == \"fromfile\")")
+				// … and the missing file is the one that was asked for: the compile error of an existing template that
+				// itself includes a missing file has the same sender
+				nameArg := call.Common().Args[1]
+				thisFile := Guarded(ret, func(cnd ssa.Value, pol bool) bool {
+					b, ok := cnd.(*ssa.BinOp)
+					if !ok || b.Op != token.EQL || !pol {
+						return false
+					}
+					for _, pr := range [][2]ssa.Value{{b.X, b.Y}, {b.Y, b.X}} {
+						if loadsFieldAny(pr[0], "Error", "Filename") && (pr[1] == nameArg || p.VN(pr[1]) == p.VN(nameArg)) {
+							return true
+						}
+					}
+					return false
+				})
+				if ifEx && sender && thisFile {
+					r.OK(key, p.InstrPos(ret), "a failed load is ignored only when if_exists is set and the error is the absence of the very file asked for (Sender == \"fromfile\", Filename == requested name)")
 				} else {
-					r.Bad(key, p.InstrPos(ret), "a failed load of the included template is swallowed without requiring if_exists=%v and Sender==\"fromfile\"=%v: a missing name must be an error (and compile errors must never be hidden)", ifEx, sender)
+					r.Bad(key, p.InstrPos(ret), "a failed load of the included template is swallowed without requiring if_exists=%v, Sender==\"fromfile\"=%v and Filename==<requested name>=%v: a missing name must be an error (also one referenced inside the included template), and compile errors must never be hidden", ifEx, sender, thisFile)
 				}
 			}
 		}
